@@ -34,6 +34,10 @@ const (
 	netNoGw  = "n3" // a network nobody configured a gateway for
 	portHTTP = "http"
 	portOth  = "other"
+
+	// node names exist once per cluster: c1/node-a and c2/node-a are different machines
+	nodeA = "node-a"
+	nodeB = "node-b"
 )
 
 var clusterIDs = []cluster.ID{"c1", "c2"}
@@ -72,6 +76,7 @@ type epSpec struct {
 	Weight          uint32 `json:"weight,omitempty"`
 	Net             string `json:"net"`
 	SameClusterOnly bool   `json:"same_cluster_only,omitempty"`
+	Node            string `json:"node"` // Kubernetes node name (node names are per cluster: c1 and c2 both have a node-a and a node-b)
 }
 
 func (e epSpec) clusterID() cluster.ID { return clusterIDs[e.Shard] }
@@ -95,13 +100,13 @@ func (e epSpec) String() string {
 	if e.SameClusterOnly {
 		s += " same-cluster-only"
 	}
-	return s + ")"
+	return s + " node=" + e.Node + ")"
 }
 
 // alphabet: element 0 is the base; every other element of shard A changes one attribute of it; the
 // shard-B elements are combinations that live in cluster c2.
 func alphabet() []epSpec {
-	base := epSpec{Name: "base", Class: "base", Addr: "10.1.0.10", Health: int(model.Healthy), Version: "v1", Port: portHTTP, Loc: "r1/z1", Shard: 0, Net: netSame}
+	base := epSpec{Name: "base", Class: "base", Addr: "10.1.0.10", Health: int(model.Healthy), Version: "v1", Port: portHTTP, Loc: "r1/z1", Shard: 0, Net: netSame, Node: nodeA}
 	mk := func(name, addr string, f func(*epSpec)) epSpec {
 		e := base
 		e.Name, e.Class, e.Addr = name, name, addr
@@ -125,9 +130,10 @@ func alphabet() []epSpec {
 		mk("same-cluster-only", "10.1.0.23", func(e *epSpec) { e.SameClusterOnly = true }),
 		mk("hostname-address", "ep.example.com", func(e *epSpec) {}),
 		mk("draining-label", "10.1.0.25", func(e *epSpec) { e.DrainLabel = true }),
+		mk("other-node", "10.1.0.26", func(e *epSpec) { e.Node = nodeB }),
 		// registry B (cluster c2)
 		mk("B-flat", "10.2.0.10", func(e *epSpec) { e.Shard = 1 }),
-		mk("B-remote", "10.2.0.11", func(e *epSpec) { e.Shard = 1; e.Net = netGw; e.Loc = "r2/z1" }),
+		mk("B-remote", "10.2.0.11", func(e *epSpec) { e.Shard = 1; e.Net = netGw; e.Loc = "r2/z1"; e.Node = nodeB }),
 		mk("B-mixed", "10.2.0.12", func(e *epSpec) {
 			e.Shard = 1
 			e.Net = netGw
@@ -170,6 +176,7 @@ func (e epSpec) istioEndpoint() *model.IstioEndpoint {
 		TLSMode:                model.IstioMutualTLSModeLabel,
 		Namespace:              svcNS,
 		WorkloadName:           "wl-" + e.Addr,
+		NodeName:               e.Node,
 		DiscoverabilityPolicy:  dp,
 		HealthStatus:           model.HealthStatus(e.Health),
 		SendUnhealthyEndpoints: features.GlobalSendUnhealthyEndpoints.Load() || features.DefaultSendUnhealthyEndpoints.Load(),
@@ -253,6 +260,7 @@ type flavour struct {
 	Sticky       bool // the service asks for persistent sessions (cookie or header form)
 	Label        string
 	ClusterLocal bool
+	NodeLocal    bool // internalTrafficPolicy: Local (ServiceAttributes.NodeLocal, set by the Kubernetes registry)
 }
 
 var flavours = []flavour{
@@ -260,6 +268,7 @@ var flavours = []flavour{
 	{Name: "persistent-session-cookie", Sticky: true, Label: features.PersistentSessionLabel},
 	{Name: "persistent-session-header", Sticky: true, Label: features.PersistentSessionHeaderLabel},
 	{Name: "cluster-local", ClusterLocal: true},
+	{Name: "node-local", NodeLocal: true},
 }
 
 func (f flavour) service() *model.Service {
@@ -278,6 +287,7 @@ func (f flavour) service() *model.Service {
 	if f.Label != "" {
 		s.Attributes.Labels = map[string]string{f.Label: "x-session"}
 	}
+	s.Attributes.NodeLocal = f.NodeLocal
 	return s
 }
 
@@ -320,12 +330,13 @@ type proxySpec struct {
 	Cluster cluster.ID
 	Net     string
 	Loc     string
+	Node    string
 }
 
 var proxyForms = []proxySpec{
-	{Name: "sidecar-c1-n1-r1z1", Type: model.SidecarProxy, Cluster: "c1", Net: netSame, Loc: "r1/z1"},
-	{Name: "sidecar-c2-n2-r2z1", Type: model.SidecarProxy, Cluster: "c2", Net: netGw, Loc: "r2/z1"},
-	{Name: "router-c1-n1-r1z2", Type: model.Router, Cluster: "c1", Net: netSame, Loc: "r1/z2"},
+	{Name: "sidecar-c1-n1-r1z1", Type: model.SidecarProxy, Cluster: "c1", Net: netSame, Loc: "r1/z1", Node: nodeA},
+	{Name: "sidecar-c2-n2-r2z1", Type: model.SidecarProxy, Cluster: "c2", Net: netGw, Loc: "r2/z1", Node: nodeA},
+	{Name: "router-c1-n1-r1z2", Type: model.Router, Cluster: "c1", Net: netSame, Loc: "r1/z2", Node: nodeB},
 }
 
 func splitLoc(l string) (region, zone string) {
@@ -351,6 +362,7 @@ func (p proxySpec) proxy(i int) *model.Proxy {
 			Namespace: svcNS,
 			ClusterID: p.Cluster,
 			Network:   network.ID(p.Net),
+			NodeName:  p.Node,
 		},
 	}
 }
